@@ -55,7 +55,8 @@ open Gen Layout CaseLift
 
 /-- **C01 for every accepted case.**  Every emitted struct `p` of the final registry is a generated vftable struct
     (whose slot offsets are C04's) or was built from a definition `item` written in the case, and then – `sa.pending`
-    being its declared fields (the statement loop over `d.stmts`, in the state the type was built in), `vptr` its own
+    being its declared fields (the statement loop over `d.stmts`, in the state the type was built in; each comes from a
+    field statement with that statement's `#[address]`, name and resolved type, `FieldOf`), `vptr` its own
     vftable pointer if it has one, both *read in the final registry* – every named field that the description puts at
     offset `o` (`Exec.declaredOffsets` = the right-hand side of `C01.field_offsets_exact`: the written address, else the
     end of the previous field; the own pointer at 0) is at offset `o` of the emitted struct for the modelled compiler
@@ -72,6 +73,7 @@ theorem case_field_offsets_exact (c : Case) (hps : c.ps = 4 ∨ c.ps = 8) (hb : 
       Declared c p item ∧ item.inner = .type d ∧ s0.moduleFor p = some module ∧ C02.Ext s0.reg s.reg ∧
       Res.foldlM typeAttrStep {} d.attrs = .ok ta ∧
       Res.foldlM (stmtStep s0.reg module.scope) {} (d.stmts.zipIdx.map fun q => (q.2, q.1)) = .ok sa ∧
+      (∀ q ∈ sa.pending, ∃ st ∈ d.stmts, FieldOf s0.reg module.scope st q) ∧
       (vptr = none ∨ ∃ vpath, vftablePath p = some vpath ∧ vptr = some (C06.ownPointer vpath)) ∧
       ∀ (o : Nat) (rg : Region) (b : String), rg.name = some b →
         (o, rg) ∈ Exec.declaredOffsets (vptr.map (toPField s.reg none)) (sa.pending.map fun q => toPField s.reg q.1 q.2) →
@@ -83,7 +85,7 @@ theorem case_field_offsets_exact (c : Case) (hps : c.ps = 4 ∨ c.ps = 8) (hb : 
             (∀ j (h1 : j < td.regions.length) (h2 : j < flds.length),
               C02.Lay s.reg (.rty (td.regions[j]).ty) (flds[j]).size (flds[j]).align) →
             (RustSem.offsets td.packed 0 flds)[k]? = some o := by
-  rcases case_type_origin c hps hb s h p i r td hg hs hin hc with hv | ⟨s0, s1, item, d, hok, hinv, hD, hget, hd, hbt, he, hi⟩
+  rcases case_type_origin c hps hb s h p i r td hg hs hin hc with hv | ⟨s0, s1, item, d, hok, hinv, _, hD, hget, hd, hbt, he, hi⟩
   · exact Or.inl hv
   · right
     obtain ⟨module, module1, ta, sa, vft, vregion, placed, acc1, acc2, td', hmod, hmod1, hdoc, hta, hsa, hbv, hres, hn, hal,
@@ -93,7 +95,12 @@ theorem case_field_offsets_exact (c : Case) (hps : c.ps = 4 ∨ c.ps = 8) (hb : 
     have he01 := Exec.buildVftable_ext s0 s1 p item.vis _ _ _ hbv
     have hprims1 : C02.PrimsOk s1.reg := Exec.primsOk_ext he01 hinv.1.prims
     obtain ⟨hpv, hpf⟩ := pfields_ext he vregion sa.pending ta.targetSize placed r.size hres
-    refine ⟨item, d, s0, module, ta, sa, vregion, hD, hd, hmod, he01.trans he, hta, hsa, ?_, ?_⟩
+    refine ⟨item, d, s0, module, ta, sa, vregion, hD, hd, hmod, he01.trans he, hta, hsa, ?_, ?_, ?_⟩
+    · intro q hq
+      rcases stmts_pending_src s0.reg module.scope _ {} sa hsa q hq with hnil | ⟨e, he', hfo⟩
+      · cases hnil
+      · obtain ⟨x, hx, rfl⟩ := List.mem_map.mp he'
+        exact ⟨x.1, (List.mem_zipIdx hx).2.2 ▸ List.getElem_mem _, hfo⟩
     · rcases buildVftable_cases s0 s1 p item.vis _ sa.vfns vft vregion hbv with
         ⟨_, _, hp, _⟩ | ⟨_, _, hp, _⟩ | ⟨_, _, _, _, hp, _⟩ | ⟨_, vpath, _, hvp, _, hp, _⟩ | ⟨_, _, _, _, _, _, _, _, _, hp, _⟩
       · exact Or.inl hp
@@ -113,5 +120,936 @@ theorem case_field_offsets_exact (c : Case) (hps : c.ps = 4 ∨ c.ps = 8) (hb : 
       exact hko
 
 end C01
+
+/-! ## C06
+
+In the four theorems, `fb := (sa.pending.map (·.2)).find? (·.isBase)` is the first `#[base]` field among the declared
+fields of the definition, and `baseVftable s.reg fb` reads the vftable of that field's type **in the final registry**
+(`.ok (some (name, table))`, or `.ok none` when there is no `#[base]` field or its type has no table;
+`Exec.baseVftable_some_inv` unfolds it to `Exec.typeDefn? s.reg … = some btd ∧ btd.vft = some table`). -/
+namespace C06
+open Gen Layout CaseLift
+
+/-- **own pointer, for every accepted case**: every emitted struct of the final registry whose definition (written in
+    the case) starts with a vftable block, and whose first base – as resolved in the final registry – supplies no table,
+    has the block's functions (`convertVfuncs`) as its table, reached through no base field, with accessor return type
+    `*const <T>Vftable`; its first field is exactly the pointer field `vftable : *const <T>Vftable` (private), which the
+    modelled compiler puts at offset 0 -/
+theorem case_own_pointer (c : Case) (hps : c.ps = 4 ∨ c.ps = 8) (hb : C12.CaseBounded c) (s : State)
+    (h : c.run = .ok s) (p : Path) (i : ItemDef) (r : Resolved) (td : TypeDefn)
+    (hg : s.reg.get p = some i) (hs : i.state = .res r) (hin : r.inner = .type td) (hc : i.cat = .defined) :
+    (∃ (reg0 : Registry) (owner : Path) (vis : Vis) (fns : List SFunc),
+      buildVftableItem reg0 owner vis fns = some i ∧ i.path = p) ∨
+    ∃ (item : G.Item) (d : G.TypeDef) (s0 : State) (module : Mod) (sa : StmtAcc),
+      Declared c p item ∧ item.inner = .type d ∧ s0.moduleFor p = some module ∧ C02.Ext s0.reg s.reg ∧
+      Res.foldlM (stmtStep s0.reg module.scope) {} (d.stmts.zipIdx.map fun q => (q.2, q.1)) = .ok sa ∧
+      ∀ (st : G.Stmt) (gfns : List G.Func) (vpath : Path),
+        d.stmts[0]? = some st → st.field = .vftable gfns → vftablePath p = some vpath →
+        baseVftable s.reg ((sa.pending.map (·.2)).find? (·.isBase)) = .ok none →
+        ∃ size out, vftableSizeAttr st.attrs = .ok size ∧ convertVfuncs s0.reg module.scope size gfns = .ok out ∧
+          td.vft = some { fns := out, baseField := none, ty := .cptr (.raw vpath) } ∧
+          td.regions.head? = some (ownPointer vpath) ∧ Exec.fieldOffset s.reg td vftableFieldName = some 0 := by
+  rcases case_vft_master c hps hb s h p i r td hg hs hin hc with hv |
+    ⟨item, d, s0, module, ta, sa, vptr, placed, hD, hd, hmod, he, hta, hsa, hres, hn, hblock, hnoblock, hptr, hcases⟩
+  · exact Or.inl hv
+  · refine Or.inr ⟨item, d, s0, module, sa, hD, hd, hmod, he, hsa, ?_⟩
+    intro st gfns vpath hst hf hvp hbase
+    obtain ⟨size, out, hsize, hconv, hvfns⟩ := hblock st gfns hst hf
+    refine ⟨size, out, hsize, hconv, ?_⟩
+    rcases hcases with ⟨h1, _⟩ | ⟨h1, _⟩ | ⟨fns, _, h2, _⟩ | ⟨fns, vpath', h1, h2, _, h4, h5⟩ |
+      ⟨fns, vpath', bn, bv, _, _, h3, _⟩
+    · rw [hvfns] at h1; cases h1
+    · rw [hvfns] at h1; cases h1
+    · rw [hvp] at h2; cases h2
+    · rw [hvfns] at h1; cases h1
+      rw [hvp] at h2; cases h2
+      exact ⟨h5, hptr vpath h4⟩
+    · rw [hbase] at h3; cases h3
+
+/-- **the pointer is the first field exactly for types with an own pointer, for every accepted case**: the fields of
+    every emitted struct are the named placement (read in the final registry) of an optional pointer region `vptr` and
+    the declared fields; `vptr` is there iff the type has a vftable that is not reached through a base field; and when it
+    is there it is `vftable : *const <T>Vftable`, the first field of the emitted struct, at offset 0 (so before all
+    declared fields) -/
+theorem case_pointer_first (c : Case) (hps : c.ps = 4 ∨ c.ps = 8) (hb : C12.CaseBounded c) (s : State)
+    (h : c.run = .ok s) (p : Path) (i : ItemDef) (r : Resolved) (td : TypeDefn)
+    (hg : s.reg.get p = some i) (hs : i.state = .res r) (hin : r.inner = .type td) (hc : i.cat = .defined) :
+    (∃ (reg0 : Registry) (owner : Path) (vis : Vis) (fns : List SFunc),
+      buildVftableItem reg0 owner vis fns = some i ∧ i.path = p) ∨
+    ∃ (item : G.Item) (d : G.TypeDef) (s0 : State) (module : Mod) (ta : TypeAttrs) (sa : StmtAcc) (vptr : Option Region)
+      (placed : List (Placed Region)),
+      Declared c p item ∧ item.inner = .type d ∧ s0.moduleFor p = some module ∧ C02.Ext s0.reg s.reg ∧
+      Res.foldlM typeAttrStep {} d.attrs = .ok ta ∧
+      Res.foldlM (stmtStep s0.reg module.scope) {} (d.stmts.zipIdx.map fun q => (q.2, q.1)) = .ok sa ∧
+      resolve (vptr.map (toPField s.reg none)) (sa.pending.map fun q => toPField s.reg q.1 q.2) ta.targetSize
+        = .ok (placed, r.size) ∧
+      nameRegions s.reg 0 placed = .ok td.regions ∧
+      ((∃ ptr, vptr = some ptr) ↔ ∃ v, td.vft = some v ∧ v.baseField = none) ∧
+      ∀ ptr, vptr = some ptr →
+        (∃ vpath, vftablePath p = some vpath ∧ ptr = ownPointer vpath) ∧
+        td.regions.head? = some ptr ∧ Exec.fieldOffset s.reg td vftableFieldName = some 0 ∧
+        ∃ sz rest, placed = ⟨sz, (toPField s.reg none ptr).align, some ptr⟩ :: rest := by
+  rcases case_vft_master c hps hb s h p i r td hg hs hin hc with hv |
+    ⟨item, d, s0, module, ta, sa, vptr, placed, hD, hd, hmod, he, hta, hsa, hres, hn, hblock, hnoblock, hptr, hcases⟩
+  · exact Or.inl hv
+  · refine Or.inr ⟨item, d, s0, module, ta, sa, vptr, placed, hD, hd, hmod, he, hta, hsa, hres, hn, ?_, ?_⟩
+    · rcases hcases with ⟨_, h2, h3, _⟩ | ⟨_, h2, bn, bv, _, h4⟩ | ⟨fns, _, _, h3, h4⟩ | ⟨fns, vpath, _, _, _, h4, h5⟩ |
+        ⟨fns, vpath, bn, bv, _, _, _, _, _, h6, h7⟩
+      · rw [h2, h3]; constructor
+        · rintro ⟨_, hx⟩; cases hx
+        · rintro ⟨_, hx, _⟩; cases hx
+      · rw [h2, h4]; constructor
+        · rintro ⟨_, hx⟩; cases hx
+        · rintro ⟨v, hx, hy⟩; cases hx; cases hy
+      · rw [h3, h4]; constructor
+        · rintro ⟨_, hx⟩; cases hx
+        · rintro ⟨_, hx, _⟩; cases hx
+      · rw [h4, h5]; exact ⟨fun _ => ⟨_, rfl, rfl⟩, fun _ => ⟨_, rfl⟩⟩
+      · rw [h6, h7]; constructor
+        · rintro ⟨_, hx⟩; cases hx
+        · rintro ⟨v, hx, hy⟩; cases hx; cases hy
+    · intro ptr hp
+      have hown : ∃ vpath, vftablePath p = some vpath ∧ ptr = ownPointer vpath := by
+        rcases hcases with ⟨_, h2, _⟩ | ⟨_, h2, _⟩ | ⟨fns, _, _, h3, _⟩ | ⟨fns, vpath, _, h2, _, h4, _⟩ |
+          ⟨fns, vpath, bn, bv, _, _, _, _, _, h6, _⟩
+        · rw [hp] at h2; cases h2
+        · rw [hp] at h2; cases h2
+        · rw [hp] at h3; cases h3
+        · rw [hp] at h4; cases h4; exact ⟨vpath, h2, rfl⟩
+        · rw [hp] at h6; cases h6
+      obtain ⟨vpath, hvp, rfl⟩ := hown
+      obtain ⟨hhead, hoff⟩ := hptr vpath hp
+      refine ⟨⟨vpath, hvp, rfl⟩, hhead, hoff, ?_⟩
+      rw [hp] at hres
+      obtain ⟨sz, rest, _, hor⟩ := C06.pointer_first _ _ ta.targetSize placed r.size hres
+      rcases hor with ⟨_, hisarr⟩ | hpl
+      · cases hisarr
+      · exact ⟨sz, rest, hpl⟩
+
+/-- **inherited, for every accepted case**: an emitted struct whose definition has no vftable block gets no pointer of
+    its own, and its table is the first base's table – as found in the final registry – unchanged (same functions, same
+    accessor return type), reached through that base field; without such a base it has no table -/
+theorem case_inherited (c : Case) (hps : c.ps = 4 ∨ c.ps = 8) (hb : C12.CaseBounded c) (s : State)
+    (h : c.run = .ok s) (p : Path) (i : ItemDef) (r : Resolved) (td : TypeDefn)
+    (hg : s.reg.get p = some i) (hs : i.state = .res r) (hin : r.inner = .type td) (hc : i.cat = .defined) :
+    (∃ (reg0 : Registry) (owner : Path) (vis : Vis) (fns : List SFunc),
+      buildVftableItem reg0 owner vis fns = some i ∧ i.path = p) ∨
+    ∃ (item : G.Item) (d : G.TypeDef) (s0 : State) (module : Mod) (ta : TypeAttrs) (sa : StmtAcc) (vptr : Option Region)
+      (placed : List (Placed Region)),
+      Declared c p item ∧ item.inner = .type d ∧ s0.moduleFor p = some module ∧ C02.Ext s0.reg s.reg ∧
+      Res.foldlM typeAttrStep {} d.attrs = .ok ta ∧
+      Res.foldlM (stmtStep s0.reg module.scope) {} (d.stmts.zipIdx.map fun q => (q.2, q.1)) = .ok sa ∧
+      resolve (vptr.map (toPField s.reg none)) (sa.pending.map fun q => toPField s.reg q.1 q.2) ta.targetSize
+        = .ok (placed, r.size) ∧
+      nameRegions s.reg 0 placed = .ok td.regions ∧
+      ((∀ st, d.stmts[0]? = some st → C01.isFieldStmt st = true) →
+        vptr = none ∧
+        (match baseVftable s.reg ((sa.pending.map (·.2)).find? (·.isBase)) with
+         | .ok (some (bn, bv)) => td.vft = some { fns := bv.fns, baseField := some bn, ty := bv.ty }
+         | _ => td.vft = none)) := by
+  rcases case_vft_master c hps hb s h p i r td hg hs hin hc with hv |
+    ⟨item, d, s0, module, ta, sa, vptr, placed, hD, hd, hmod, he, hta, hsa, hres, hn, hblock, hnoblock, hptr, hcases⟩
+  · exact Or.inl hv
+  · refine Or.inr ⟨item, d, s0, module, ta, sa, vptr, placed, hD, hd, hmod, he, hta, hsa, hres, hn, ?_⟩
+    intro hnb
+    have hvf := hnoblock hnb
+    rcases hcases with ⟨_, h2, h3, h4⟩ | ⟨_, h2, bn, bv, h3, h4⟩ | ⟨fns, h1, _⟩ | ⟨fns, vpath, h1, _⟩ |
+      ⟨fns, vpath, bn, bv, h1, _⟩
+    · exact ⟨h2, by rw [h4]; exact h3⟩
+    · exact ⟨h2, by rw [h3]; exact h4⟩
+    · rw [hvf] at h1; cases h1
+    · rw [hvf] at h1; cases h1
+    · rw [hvf] at h1; cases h1
+
+/-- **accepted ⇒ prefix, for every accepted case**: every emitted struct of the final registry whose definition starts
+    with a vftable block and whose first base – as resolved in the final registry – has a vftable: the base's slots are
+    a prefix of the derived table's (same position, name, receiver, parameter types, return type, convention – the same
+    function values), the type gets no pointer of its own, and records the base field through which the pointer is
+    reached -/
+theorem case_accept_implies_prefix (c : Case) (hps : c.ps = 4 ∨ c.ps = 8) (hb : C12.CaseBounded c) (s : State)
+    (h : c.run = .ok s) (p : Path) (i : ItemDef) (r : Resolved) (td : TypeDefn)
+    (hg : s.reg.get p = some i) (hs : i.state = .res r) (hin : r.inner = .type td) (hc : i.cat = .defined) :
+    (∃ (reg0 : Registry) (owner : Path) (vis : Vis) (fns : List SFunc),
+      buildVftableItem reg0 owner vis fns = some i ∧ i.path = p) ∨
+    ∃ (item : G.Item) (d : G.TypeDef) (s0 : State) (module : Mod) (ta : TypeAttrs) (sa : StmtAcc) (vptr : Option Region)
+      (placed : List (Placed Region)),
+      Declared c p item ∧ item.inner = .type d ∧ s0.moduleFor p = some module ∧ C02.Ext s0.reg s.reg ∧
+      Res.foldlM typeAttrStep {} d.attrs = .ok ta ∧
+      Res.foldlM (stmtStep s0.reg module.scope) {} (d.stmts.zipIdx.map fun q => (q.2, q.1)) = .ok sa ∧
+      resolve (vptr.map (toPField s.reg none)) (sa.pending.map fun q => toPField s.reg q.1 q.2) ta.targetSize
+        = .ok (placed, r.size) ∧
+      nameRegions s.reg 0 placed = .ok td.regions ∧
+      ∀ (st : G.Stmt) (gfns : List G.Func) (vpath : Path) (bn : String) (bv : Vft),
+        d.stmts[0]? = some st → st.field = .vftable gfns → vftablePath p = some vpath →
+        baseVftable s.reg ((sa.pending.map (·.2)).find? (·.isBase)) = .ok (some (bn, bv)) →
+        ∃ size out, vftableSizeAttr st.attrs = .ok size ∧ convertVfuncs s0.reg module.scope size gfns = .ok out ∧
+          bv.fns <+: out ∧ (bv.fns.map slotSig) <+: (out.map slotSig) ∧ vptr = none ∧
+          td.vft = some { fns := out, baseField := some bn, ty := .cptr (.raw vpath) } ∧
+          ∃ rg bp btd, (sa.pending.map (·.2)).find? (·.isBase) = some rg ∧ rg.name = some bn ∧
+            rg.ty = .data (.raw bp) ∧ Exec.typeDefn? s.reg bp = some btd ∧ btd.vft = some bv := by
+  rcases case_vft_master c hps hb s h p i r td hg hs hin hc with hv |
+    ⟨item, d, s0, module, ta, sa, vptr, placed, hD, hd, hmod, he, hta, hsa, hres, hn, hblock, hnoblock, hptr, hcases⟩
+  · exact Or.inl hv
+  · refine Or.inr ⟨item, d, s0, module, ta, sa, vptr, placed, hD, hd, hmod, he, hta, hsa, hres, hn, ?_⟩
+    intro st gfns vpath bn bv hst hf hvp hbase
+    obtain ⟨size, out, hsize, hconv, hvfns⟩ := hblock st gfns hst hf
+    refine ⟨size, out, hsize, hconv, ?_⟩
+    rcases hcases with ⟨h1, _⟩ | ⟨h1, _⟩ | ⟨fns, _, h2, _⟩ | ⟨fns, vpath', _, _, h3, _⟩ |
+      ⟨fns, vpath', bn', bv', h1, h2, h3, h4, h5, h6, h7⟩
+    · rw [hvfns] at h1; cases h1
+    · rw [hvfns] at h1; cases h1
+    · rw [hvp] at h2; cases h2
+    · rw [hbase] at h3; cases h3
+    · rw [hvfns] at h1; cases h1
+      rw [hvp] at h2; cases h2
+      rw [hbase] at h3; cases h3
+      exact ⟨h4, h5, h6, h7, Exec.baseVftable_some_inv s.reg _ bn bv hbase⟩
+
+end C06
+
+/-! ## C08 -/
+namespace C08
+open Gen CaseLift
+
+/-- **values, for every accepted case**: every resolved enum of the final registry was built from an enum definition
+    written in the case (registered under `module path ++ [name]`), has exactly the discriminants the description says
+    (`specValues`: the written literal, else predecessor + 1, else 0), and the enum item emitted for it lists exactly
+    these variants with these values, in source order, under the declared visibility and name -/
+theorem case_values (c : Case) (hps : c.ps = 4 ∨ c.ps = 8) (hb : C12.CaseBounded c) (s : State)
+    (h : c.run = .ok s) (p : Path) (i : ItemDef) (r : Resolved) (ed : EnumDefn)
+    (hg : s.reg.get p = some i) (hs : i.state = .res r) (hin : r.inner = .enum ed) :
+    ∃ (item : G.Item) (d : G.EnumDef),
+      Declared c p item ∧ item.inner = .enum d ∧ i = builtItem p item r ∧
+      ed.fields = specValues 0 d.stmts ∧
+      ∃ docs derives tl, Emit.itemItems s.reg i =
+        Sexp.mk "enum" ([docs, derives, Sexp.mk "repr" [.str (Emit.tyStr ed.ty)], Emit.visS item.vis,
+            .str (p.getLast?.getD "")] ++
+          (specValues 0 d.stmts).zipIdx.map fun ((n, v), idx) =>
+            Sexp.mk "var" [.str n, Sexp.ofOpt .int (some v), Sexp.ofBool (ed.defaultIdx == some idx)]) :: tl := by
+  obtain ⟨s0, item, d, _, _, _, hD, _, hd, hbe, _, hi⟩ := case_enum_origin c hps hb s h p i r ed hg hs hin
+  obtain ⟨ed', hin', hv⟩ := values s0 p d r hbe
+  rw [hin] at hin'
+  cases hin'
+  refine ⟨item, d, hD, hd, hi, hv, ?_⟩
+  obtain ⟨docs, derives, tl, hem⟩ := emitted p r.size item.vis ed
+  refine ⟨docs, derives, tl, ?_⟩
+  rw [itemItems_enum s.reg i r ed (by rw [hi]; rfl) hs hin, hi, ← hv]
+  exact hem
+
+/-- **representation, for every accepted case**: the base of every resolved enum of the final registry is the written
+    base type, resolved in the scope of the enum's module, and one of the built-in integer types; the resolved size and
+    alignment are that type's *in the final registry*; the emitted item carries `repr(<base>)` -/
+theorem case_repr (c : Case) (hps : c.ps = 4 ∨ c.ps = 8) (hb : C12.CaseBounded c) (s : State)
+    (h : c.run = .ok s) (p : Path) (i : ItemDef) (r : Resolved) (ed : EnumDefn)
+    (hg : s.reg.get p = some i) (hs : i.state = .res r) (hin : r.inner = .enum ed) :
+    ∃ (item : G.Item) (d : G.EnumDef) (s0 : State) (module : Mod) (name : String) (signed : Bool) (bits : Nat),
+      Declared c p item ∧ item.inner = .enum d ∧ s0.moduleFor p = some module ∧ C02.Ext s0.reg s.reg ∧
+      s0.reg.resolveTy module.scope d.ty = .ok ed.ty ∧
+      ed.ty = .raw [name] ∧ (name, signed, bits) ∈ intTypes ∧
+      DTy.size s.reg ed.ty = .ok (some r.size) ∧ DTy.align s.reg ed.ty = some r.align ∧
+      ∃ docs derives rest tl, Emit.itemItems s.reg i =
+        Sexp.mk "enum" (docs :: derives :: Sexp.mk "repr" [.str (Emit.tyStr (.raw [name]))] :: Emit.visS item.vis ::
+          .str (p.getLast?.getD "") :: rest) :: tl := by
+  obtain ⟨s0, item, d, _, _, _, hD, _, hd, hbe, he, hi⟩ := case_enum_origin c hps hb s h p i r ed hg hs hin
+  obtain ⟨ed', name, signed, bits, hin', hty, hmem, hsz, hal⟩ := repr s0 p d r hbe
+  rw [hin] at hin'
+  cases hin'
+  obtain ⟨module, ty, _, _, _, ed'', hmod, hres, _, _, _, _, _, _, hin'', hty'', _⟩ := buildEnum_full s0 p d r hbe
+  rw [hin] at hin''
+  cases hin''
+  refine ⟨item, d, s0, module, name, signed, bits, hD, hd, hmod, he, by rw [hty'']; exact hres, hty, hmem,
+    dsize_ext he _ _ hsz, dalign_ext he _ _ hal, ?_⟩
+  obtain ⟨docs, derives, tl, hem⟩ := emitted p r.size item.vis ed
+  refine ⟨docs, derives, ed.fields.zipIdx.map fun ((n, v), idx) =>
+    Sexp.mk "var" [.str n, Sexp.ofOpt .int (some v), Sexp.ofBool (ed.defaultIdx == some idx)], tl, ?_⟩
+  rw [itemItems_enum s.reg i r ed (by rw [hi]; rfl) hs hin, hi, ← hty]
+  exact hem
+
+/-- **default, for every accepted case**: every resolved enum of the final registry is defaultable iff its definition
+    is declared so, has a default variant iff it is defaultable, and that variant is the single one whose source
+    statement carries the marker -/
+theorem case_default_marker (c : Case) (hps : c.ps = 4 ∨ c.ps = 8) (hb : C12.CaseBounded c) (s : State)
+    (h : c.run = .ok s) (p : Path) (i : ItemDef) (r : Resolved) (ed : EnumDefn)
+    (hg : s.reg.get p = some i) (hs : i.state = .res r) (hin : r.inner = .enum ed) :
+    ∃ (item : G.Item) (d : G.EnumDef),
+      Declared c p item ∧ item.inner = .enum d ∧ ed.defaultable = isDefaultable d.attrs ∧
+      (match ed.defaultIdx with
+       | some k => markerIdxs d.stmts = [k] ∧ ed.defaultable = true
+       | none => markerIdxs d.stmts = [] ∧ ed.defaultable = false) := by
+  obtain ⟨s0, item, d, _, _, _, hD, _, hd, hbe, _, _⟩ := case_enum_origin c hps hb s h p i r ed hg hs hin
+  obtain ⟨ed', hin', h1, h2⟩ := default_marker s0 p d r hbe
+  rw [hin] at hin'
+  cases hin'
+  exact ⟨item, d, hD, hd, h1, h2⟩
+
+/-- **values fit the width, for every accepted case**: every value of every resolved enum of the final registry fits
+    the width of its base type (so `v as _` loses no bits) and, for a signed base type, fits the type -/
+theorem case_values_fit_width (c : Case) (hps : c.ps = 4 ∨ c.ps = 8) (hb : C12.CaseBounded c) (s : State)
+    (h : c.run = .ok s) (p : Path) (i : ItemDef) (r : Resolved) (ed : EnumDefn)
+    (hg : s.reg.get p = some i) (hs : i.state = .res r) (hin : r.inner = .enum ed) :
+    ∃ (name : String) (signed : Bool) (bits : Nat), ed.ty = .raw [name] ∧ (name, signed, bits) ∈ intTypes ∧
+      ∀ nv ∈ ed.fields, -(2 ^ (bits - 1)) ≤ nv.2 ∧ nv.2 < 2 ^ bits ∧ (signed = true → Fits signed bits nv.2) := by
+  obtain ⟨s0, item, d, _, _, _, _, _, _, hbe, _, _⟩ := case_enum_origin c hps hb s h p i r ed hg hs hin
+  obtain ⟨ed', name, signed, bits, hin', h1, h2, h3⟩ := values_fit_width s0 p d r hbe
+  rw [hin] at hin'
+  cases hin'
+  exact ⟨name, signed, bits, h1, h2, h3⟩
+
+/-- … hence (modelled rustc) for every resolved enum of the final registry with a signed base type, and for the
+    non-negative values of the others, the compiled discriminant `v as <base>` is the declared value -/
+theorem case_discriminant_is_value_partial (c : Case) (hps : c.ps = 4 ∨ c.ps = 8) (hb : C12.CaseBounded c) (s : State)
+    (h : c.run = .ok s) (p : Path) (i : ItemDef) (r : Resolved) (ed : EnumDefn)
+    (hg : s.reg.get p = some i) (hs : i.state = .res r) (hin : r.inner = .enum ed) :
+    ∃ (item : G.Item) (d : G.EnumDef) (name : String) (signed : Bool) (bits : Nat),
+      Declared c p item ∧ item.inner = .enum d ∧ ed.ty = .raw [name] ∧ (name, signed, bits) ∈ intTypes ∧
+      ∀ nv ∈ specValues 0 d.stmts, (signed = true ∨ 0 ≤ nv.2) → cast signed bits nv.2 = nv.2 := by
+  obtain ⟨s0, item, d, _, _, _, hD, _, hd, hbe, _, _⟩ := case_enum_origin c hps hb s h p i r ed hg hs hin
+  obtain ⟨ed', name, signed, bits, hin', h1, h2, h3⟩ := discriminant_is_value_partial s0 p d r hbe
+  rw [hin] at hin'
+  cases hin'
+  obtain ⟨ed'', hin'', hv⟩ := values s0 p d r hbe
+  rw [hin] at hin''
+  cases hin''
+  exact ⟨item, d, name, signed, bits, hD, hd, h1, h2, by rw [← hv]; exact h3⟩
+
+end C08
+
+/-! ## C15 -/
+namespace C15
+open Gen CaseLift
+
+/-- **struct singletons, for every accepted case**: every emitted struct of the final registry is a generated vftable
+    struct (no singleton) or was built from a definition written in the case, and then its singleton address is the
+    declared (non-negative) number – the last `#[singleton(A)]` of the definition – or it has none -/
+theorem case_type_singleton (c : Case) (hps : c.ps = 4 ∨ c.ps = 8) (hb : C12.CaseBounded c) (s : State)
+    (h : c.run = .ok s) (p : Path) (i : ItemDef) (r : Resolved) (td : TypeDefn)
+    (hg : s.reg.get p = some i) (hs : i.state = .res r) (hin : r.inner = .type td) (hc : i.cat = .defined) :
+    ((∃ (reg0 : Registry) (owner : Path) (vis : Vis) (fns : List SFunc),
+        buildVftableItem reg0 owner vis fns = some i ∧ i.path = p) ∧ td.singleton = none) ∨
+    ∃ (item : G.Item) (d : G.TypeDef),
+      Declared c p item ∧ item.inner = .type d ∧ i = builtItem p item r ∧
+      (match declInt "singleton" d.attrs with
+       | some a => 0 ≤ a ∧ td.singleton = some a.toNat
+       | none => td.singleton = none) := by
+  rcases case_type_origin c hps hb s h p i r td hg hs hin hc with
+    ⟨reg0, owner, vis, fns, hv, hp⟩ | ⟨s0, s1, item, d, _, _, _, hD, _, hd, hbt, _, hi⟩
+  · obtain ⟨htd, _⟩ := vftable_item_td reg0 owner vis fns i r td hv hs hin
+    exact Or.inl ⟨⟨reg0, owner, vis, fns, hv, hp⟩, by rw [htd]⟩
+  · obtain ⟨_, _, ta, _, _, _, _, _, _, td', _, _, _, hta, _, _, _, _, _, _, _, hin', _, _, hsing, _⟩ :=
+      buildType_full s0 s1 p item.vis d r hbt
+    rw [hin] at hin'
+    cases hin'
+    refine Or.inr ⟨item, d, hD, hd, hi, ?_⟩
+    rw [hsing]
+    exact type_singleton d.attrs ta hta
+
+/-- **enum singletons, for every accepted case** -/
+theorem case_enum_singleton (c : Case) (hps : c.ps = 4 ∨ c.ps = 8) (hb : C12.CaseBounded c) (s : State)
+    (h : c.run = .ok s) (p : Path) (i : ItemDef) (r : Resolved) (ed : EnumDefn)
+    (hg : s.reg.get p = some i) (hs : i.state = .res r) (hin : r.inner = .enum ed) :
+    ∃ (item : G.Item) (d : G.EnumDef),
+      Declared c p item ∧ item.inner = .enum d ∧ i = builtItem p item r ∧
+      (match declInt "singleton" d.attrs with
+       | some a => 0 ≤ a ∧ ed.singleton = some a.toNat
+       | none => ed.singleton = none) := by
+  obtain ⟨s0, item, d, _, _, _, hD, _, hd, hbe, _, hi⟩ := case_enum_origin c hps hb s h p i r ed hg hs hin
+  obtain ⟨_, _, _, _, ea, ed', _, _, _, _, _, _, hea, _, hin', _, _, hsing, _⟩ := buildEnum_full s0 p d r hbe
+  rw [hin] at hin'
+  cases hin'
+  refine ⟨item, d, hD, hd, hi, ?_⟩
+  rw [hsing]
+  exact enum_singleton d.attrs ea hea
+
+/-- **struct getters, for every accepted case**: for every emitted struct of the final registry built from a definition
+    with `#[singleton(A)]`, the items emitted for it contain the one-indirection getter at exactly the declared address
+    `A`, under the type's name and declared visibility -/
+theorem case_struct_getter_emitted (c : Case) (hps : c.ps = 4 ∨ c.ps = 8) (hb : C12.CaseBounded c) (s : State)
+    (h : c.run = .ok s) (p : Path) (i : ItemDef) (r : Resolved) (td : TypeDefn)
+    (hg : s.reg.get p = some i) (hs : i.state = .res r) (hin : r.inner = .type td) (hc : i.cat = .defined)
+    (a : Nat) (ha : td.singleton = some a) :
+    ∃ (item : G.Item) (d : G.TypeDef),
+      Declared c p item ∧ item.inner = .type d ∧ declInt "singleton" d.attrs = some (a : Int) ∧
+      Sexp.mk "singleton-struct" [.str (p.getLast?.getD ""), Emit.visS item.vis, .int a] ∈ Emit.itemItems s.reg i := by
+  rcases case_type_singleton c hps hb s h p i r td hg hs hin hc with ⟨_, hnone⟩ | ⟨item, d, hD, hd, hi, hm⟩
+  · rw [hnone] at ha; cases ha
+  · refine ⟨item, d, hD, hd, ?_, ?_⟩
+    · split at hm
+      · next a' hda =>
+        obtain ⟨h0, hsome⟩ := hm
+        rw [ha] at hsome
+        simp only [Option.some.injEq] at hsome
+        rw [hda, hsome, Int.toNat_of_nonneg h0]
+      · rw [hm] at ha; cases ha
+    · rw [itemItems_type s.reg i r td hc hs hin, hi]
+      exact struct_getter_emitted s.reg p r.size r.align item.vis td a ha
+
+/-- **enum getters, for every accepted case** -/
+theorem case_enum_getter_emitted (c : Case) (hps : c.ps = 4 ∨ c.ps = 8) (hb : C12.CaseBounded c) (s : State)
+    (h : c.run = .ok s) (p : Path) (i : ItemDef) (r : Resolved) (ed : EnumDefn)
+    (hg : s.reg.get p = some i) (hs : i.state = .res r) (hin : r.inner = .enum ed)
+    (a : Nat) (ha : ed.singleton = some a) :
+    ∃ (item : G.Item) (d : G.EnumDef),
+      Declared c p item ∧ item.inner = .enum d ∧ declInt "singleton" d.attrs = some (a : Int) ∧
+      Sexp.mk "singleton-enum" [.str (p.getLast?.getD ""), Emit.visS item.vis, .int a] ∈ Emit.itemItems s.reg i := by
+  obtain ⟨item, d, hD, hd, hi, hm⟩ := case_enum_singleton c hps hb s h p i r ed hg hs hin
+  refine ⟨item, d, hD, hd, ?_, ?_⟩
+  · split at hm
+    · next a' hda =>
+      obtain ⟨h0, hsome⟩ := hm
+      rw [ha] at hsome
+      simp only [Option.some.injEq] at hsome
+      rw [hda, hsome, Int.toNat_of_nonneg h0]
+    · rw [hm] at ha; cases ha
+  · rw [itemItems_enum s.reg i r ed (by rw [hi]; rfl) hs hin, hi]
+    exact enum_getter_emitted p r.size item.vis ed a ha
+
+/-- **no singleton, no getter, for every accepted case**: the items emitted for a generated vftable struct, or for a
+    struct whose definition carries no `#[singleton]`, contain no singleton getter -/
+theorem case_no_singleton_no_getter (c : Case) (hps : c.ps = 4 ∨ c.ps = 8) (hb : C12.CaseBounded c) (s : State)
+    (h : c.run = .ok s) (p : Path) (i : ItemDef) (r : Resolved) (td : TypeDefn)
+    (hg : s.reg.get p = some i) (hs : i.state = .res r) (hin : r.inner = .type td) (hc : i.cat = .defined) :
+    ((∃ (reg0 : Registry) (owner : Path) (vis : Vis) (fns : List SFunc),
+        buildVftableItem reg0 owner vis fns = some i ∧ i.path = p) ∧
+      ∀ x ∈ Emit.itemItems s.reg i, Sexp.head? x ≠ some "singleton-struct") ∨
+    ∃ (item : G.Item) (d : G.TypeDef),
+      Declared c p item ∧ item.inner = .type d ∧
+      (declInt "singleton" d.attrs = none →
+        ∀ x ∈ Emit.itemItems s.reg i, Sexp.head? x ≠ some "singleton-struct") := by
+  rcases case_type_singleton c hps hb s h p i r td hg hs hin hc with ⟨hv, hnone⟩ | ⟨item, d, hD, hd, hi, hm⟩
+  · refine Or.inl ⟨hv, ?_⟩
+    rw [itemItems_type s.reg i r td hc hs hin]
+    exact no_singleton_no_getter s.reg i.path r.size r.align i.vis td hnone
+  · refine Or.inr ⟨item, d, hD, hd, ?_⟩
+    intro hdecl
+    rw [hdecl] at hm
+    rw [itemItems_type s.reg i r td hc hs hin]
+    exact no_singleton_no_getter s.reg i.path r.size r.align i.vis td hm
+
+/-- **extern values, for every accepted case**: every extern value of every module of the final state is the conversion
+    of an extern value written in the case under that module's path: the declared non-negative address, the same name,
+    visibility and written type; its resolved type is the written type resolved in the module's scope in the final
+    registry -/
+theorem case_extern_value_address (c : Case) (s : State) (h : c.run = .ok s) :
+    ∀ e ∈ s.modules, ∀ x ∈ e.2.xvals, ∃ gx, DeclaredX c e.1 gx ∧
+      (∃ a : Int, declInt "address" gx.attrs = some a ∧ 0 ≤ a ∧ x.addr = a.toNat ∧ x.name = gx.name ∧
+        x.vis = gx.vis ∧ x.gty = gx.ty) ∧
+      ∃ t, s.reg.resolveTy e.2.scope gx.ty = .ok t ∧ x.ty = some t := by
+  intro e he x hx
+  obtain ⟨gx, hgx, hof, t, ht, hty⟩ := case_xvals c s h e he x hx
+  refine ⟨gx, hgx, hof, t, ?_, hty⟩
+  obtain ⟨_, _, _, _, _, _, hgty⟩ := hof
+  rw [← hgty]; exact ht
+
+/-- **extern accessors, for every accepted case**: the accessor emitted for every extern value of every module of the
+    final state is `get_<declared name>`, with the declared visibility, the written type resolved in the final registry,
+    and exactly the declared address -/
+theorem case_extern_accessor_emitted (c : Case) (s : State) (h : c.run = .ok s) :
+    ∀ e ∈ s.modules, ∀ x ∈ e.2.xvals, ∃ gx t, ∃ a : Int, DeclaredX c e.1 gx ∧
+      declInt "address" gx.attrs = some a ∧ 0 ≤ a ∧ s.reg.resolveTy e.2.scope gx.ty = .ok t ∧
+      Emit.xvalItem x =
+        Sexp.mk "xaccessor" [Emit.visS gx.vis, .str ("get_" ++ unraw gx.name), .str (Emit.tyStr t), .int a] := by
+  intro e he x hx
+  obtain ⟨gx, hgx, ⟨a, hda, h0, haddr, hname, hvis, _⟩, t, ht, hty⟩ := case_extern_value_address c s h e he x hx
+  refine ⟨gx, t, a, hgx, hda, h0, ht, ?_⟩
+  rw [extern_accessor_emitted x t hty, hvis, hname, haddr, Int.toNat_of_nonneg h0]
+
+/-- **the emitted files, for every accepted case**: every singleton getter and every extern-value accessor that appears
+    in an emitted file addresses a location declared in the case – a struct getter the `#[singleton(A)]` of a type
+    definition written in the case, an enum getter that of an enum definition, an accessor the `#[address(A)]` of an
+    extern value written in the case (under the file's module path) -/
+theorem case_file_accessors (c : Case) (hps : c.ps = 4 ∨ c.ps = 8) (hb : C12.CaseBounded c) (s : State)
+    (h : c.run = .ok s) (f : Sexp) (hf : f ∈ Emit.files s) (x : Sexp) (hx : x ∈ fileItems f) :
+    (Sexp.head? x = some "singleton-struct" →
+      ∃ (p : Path) (item : G.Item) (d : G.TypeDef) (a : Int), Declared c p item ∧ item.inner = .type d ∧
+        declInt "singleton" d.attrs = some a ∧ 0 ≤ a ∧
+        x = Sexp.mk "singleton-struct" [.str (p.getLast?.getD ""), Emit.visS item.vis, .int a]) ∧
+    (Sexp.head? x = some "singleton-enum" →
+      ∃ (p : Path) (item : G.Item) (d : G.EnumDef) (a : Int), Declared c p item ∧ item.inner = .enum d ∧
+        declInt "singleton" d.attrs = some a ∧ 0 ≤ a ∧
+        x = Sexp.mk "singleton-enum" [.str (p.getLast?.getD ""), Emit.visS item.vis, .int a]) ∧
+    (Sexp.head? x = some "xaccessor" →
+      ∃ (e : Path × Mod) (gx : G.XVal) (t : DTy) (a : Int), e ∈ s.modules ∧ f = Emit.moduleFile s e.1 e.2 ∧
+        DeclaredX c e.1 gx ∧ declInt "address" gx.attrs = some a ∧ 0 ≤ a ∧ s.reg.resolveTy e.2.scope gx.ty = .ok t ∧
+        x = Sexp.mk "xaccessor" [Emit.visS gx.vis, .str ("get_" ++ unraw gx.name), .str (Emit.tyStr t), .int a]) := by
+  obtain ⟨e, he, hne, hfe, hcases⟩ := files_items s f hf x hx
+  rcases hcases with hblock | ⟨q, hq, i, hg, hxi⟩ | ⟨xv, hxv, rfl⟩
+  · rw [hblock]
+    exact ⟨fun hh => absurd hh (by decide), fun hh => absurd hh (by decide), fun hh => absurd hh (by decide)⟩
+  · obtain ⟨hc, r, hs⟩ := itemItems_inv s.reg i x hxi
+    cases hin : r.inner with
+    | type td =>
+      rw [itemItems_type s.reg i r td hc hs hin] at hxi
+      rcases typeItems_kinds s.reg i.path r.size r.align i.vis td x hxi with ⟨a, ha, hxe⟩ | hk
+      · refine ⟨fun _ => ?_, fun hh => ?_, fun hh => ?_⟩
+        · rcases case_type_singleton c hps hb s h q i r td hg hs hin hc with ⟨_, hnone⟩ | ⟨item, d, hD, hd, hi, hm⟩
+          · rw [hnone] at ha; cases ha
+          · split at hm
+            · next a' hda =>
+              obtain ⟨h0, hsome⟩ := hm
+              rw [ha] at hsome
+              simp only [Option.some.injEq] at hsome
+              refine ⟨q, item, d, a', hD, hd, hda, h0, ?_⟩
+              rw [hxe, hi, hsome, Int.toNat_of_nonneg h0]
+              rfl
+            · rw [hm] at ha; cases ha
+        · exact absurd hh (by rw [hxe]; exact head_ne _ _ _ (by decide))
+        · exact absurd hh (by rw [hxe]; exact head_ne _ _ _ (by decide))
+      · refine ⟨fun hh => ?_, fun hh => ?_, fun hh => ?_⟩ <;>
+        · rw [hh] at hk
+          simp at hk
+    | «enum» ed =>
+      rw [itemItems_enum s.reg i r ed hc hs hin] at hxi
+      rcases enumItems_kinds i.path r.size i.vis ed x hxi with ⟨a, ha, hxe⟩ | hk
+      · refine ⟨fun hh => ?_, fun _ => ?_, fun hh => ?_⟩
+        · exact absurd hh (by rw [hxe]; exact head_ne _ _ _ (by decide))
+        · obtain ⟨item, d, hD, hd, hi, hm⟩ := case_enum_singleton c hps hb s h q i r ed hg hs hin
+          split at hm
+          · next a' hda =>
+            obtain ⟨h0, hsome⟩ := hm
+            rw [ha] at hsome
+            simp only [Option.some.injEq] at hsome
+            refine ⟨q, item, d, a', hD, hd, hda, h0, ?_⟩
+            rw [hxe, hi, hsome, Int.toNat_of_nonneg h0]
+            rfl
+          · rw [hm] at ha; cases ha
+        · exact absurd hh (by rw [hxe]; exact head_ne _ _ _ (by decide))
+      · refine ⟨fun hh => ?_, fun hh => ?_, fun hh => ?_⟩ <;>
+        · rw [hh] at hk
+          simp at hk
+  · obtain ⟨gx, t, a, hgx, hda, h0, ht, hem⟩ := case_extern_accessor_emitted c s h e he xv hxv
+    refine ⟨fun hh => ?_, fun hh => ?_, fun _ => ⟨e, gx, t, a, he, hfe, hgx, hda, h0, ht, hem⟩⟩
+    · exact absurd hh (by rw [hem]; exact head_ne _ _ _ (by decide))
+    · exact absurd hh (by rw [hem]; exact head_ne _ _ _ (by decide))
+
+end C15
+
+/-! ## C16 -/
+namespace C16
+open Gen CaseLift
+
+/-- **declared wins, default by receiver, for every function of every accepted case.**  Every emitted struct of the final
+    registry is a generated vftable struct (no functions, no table) or was built from a definition written in the case;
+    then every associated function either has the convention the property prescribes (`specCC`) for a function written
+    in a function block for this type in the case – same name – or is a re-exposed copy of a function of one of its
+    `#[base]` fields' types (as found in the final registry) with that function's convention; and, if the definition
+    starts with a vftable block, every slot of the type's table has the convention prescribed for a function written in
+    the block – same name – or is that slot's placeholder -/
+theorem case_built_cc (c : Case) (hps : c.ps = 4 ∨ c.ps = 8) (hb : C12.CaseBounded c) (s : State)
+    (h : c.run = .ok s) (p : Path) (i : ItemDef) (r : Resolved) (td : TypeDefn)
+    (hg : s.reg.get p = some i) (hs : i.state = .res r) (hin : r.inner = .type td) (hc : i.cat = .defined) :
+    ((∃ (reg0 : Registry) (owner : Path) (vis : Vis) (fns : List SFunc),
+        buildVftableItem reg0 owner vis fns = some i ∧ i.path = p) ∧ td.fns = [] ∧ td.vft = none) ∨
+    ∃ (item : G.Item) (d : G.TypeDef),
+      Declared c p item ∧ item.inner = .type d ∧
+      (∀ f ∈ td.fns,
+        (∃ gf, DeclaredFn c p gf ∧ f.name = gf.name ∧ specCC gf = some f.cc) ∨
+        (∃ rg ∈ td.regions, ∃ (b : String) (bp : Path) (btd : TypeDefn) (f0 : SFunc),
+          rg.isBase = true ∧ rg.name = some b ∧ rg.ty = .data (.raw bp) ∧ Exec.typeDefn? s.reg bp = some btd ∧
+          (f0 ∈ btd.fns ∨ ∃ v, btd.vft = some v ∧ f0 ∈ v.fns) ∧ f.cc = f0.cc ∧ f.body = .field b f0.name)) ∧
+      (∀ st gfns, d.stmts[0]? = some st → st.field = .vftable gfns →
+        ∀ v, td.vft = some v → ∀ k f, v.fns[k]? = some f →
+          (∃ gf ∈ gfns, f.name = gf.name ∧ specCC gf = some f.cc) ∨ (f = placeholderFn k ∧ f.cc = .Thiscall)) := by
+  rcases case_fns_master c hps hb s h p i r td hg hs hin hc with hv |
+    ⟨item, d, s0, s1, module, hD, hd, hmod, he01, he, hfns, hblock⟩
+  · exact Or.inl hv
+  · refine Or.inr ⟨item, d, hD, hd, ?_, ?_⟩
+    · intro f hf
+      rcases hfns f hf with ⟨gf, hgf, hbf⟩ | ⟨rg, hrg, b, bp, btd, f0, k1, k2, k3, k4, k5, _, _, _, _, _, k6, k7⟩
+      · obtain ⟨_, _, _, hname, _⟩ := C05.built_shape s1.reg module.scope gf f hbf
+        exact Or.inl ⟨gf, hgf, hname, built_cc s1.reg module.scope false gf f hbf⟩
+      · exact Or.inr ⟨rg, hrg, b, bp, btd, f0, k1, k2, k3, k4, k5, k6, k7⟩
+    · intro st gfns hst hf v hv k f hk
+      obtain ⟨size, out, _, _, hout, _, hslots⟩ := hblock st gfns hst hf
+      rw [hout v hv] at hk
+      rcases hslots k f hk with ⟨gf, hgf, hbf⟩ | hph
+      · exact Or.inl ⟨gf, hgf, (C04.vfunc_body s0.reg module.scope gf f hbf).2, built_cc s0.reg module.scope true gf f hbf⟩
+      · exact Or.inr ⟨hph, by rw [hph]; exact placeholder_thiscall k⟩
+
+/-- **placeholder slots are thiscall, for every accepted case**: in the table of every emitted struct whose definition
+    starts with a vftable block, every slot that the description (`C04.specPositions`: written index, else predecessor
+    + 1) gives to no function of the block is that slot's placeholder, with convention `thiscall` -/
+theorem case_placeholder_thiscall (c : Case) (hps : c.ps = 4 ∨ c.ps = 8) (hb : C12.CaseBounded c) (s : State)
+    (h : c.run = .ok s) (p : Path) (i : ItemDef) (r : Resolved) (td : TypeDefn)
+    (hg : s.reg.get p = some i) (hs : i.state = .res r) (hin : r.inner = .type td) (hc : i.cat = .defined)
+    (v : Vft) (hv : td.vft = some v) :
+    ∃ (item : G.Item) (d : G.TypeDef),
+      Declared c p item ∧ item.inner = .type d ∧
+      ∀ st gfns, d.stmts[0]? = some st → st.field = .vftable gfns →
+        ∃ pos, C04.specPositions 0 (gfns.map C04.declIndex) = some pos ∧
+          ∀ k, k < v.fns.length → k ∉ pos → v.fns[k]? = some (placeholderFn k) ∧ (placeholderFn k).cc = .Thiscall := by
+  rcases case_fns_master c hps hb s h p i r td hg hs hin hc with ⟨_, _, hnone⟩ |
+    ⟨item, d, s0, s1, module, hD, hd, hmod, he01, he, hfns, hblock⟩
+  · rw [hnone] at hv; cases hv
+  · refine ⟨item, d, hD, hd, ?_⟩
+    intro st gfns hst hf
+    obtain ⟨size, out, _, hconv, hout, _, _⟩ := hblock st gfns hst hf
+    obtain ⟨pos, built, len, hpos, _, _, _, _, _, hph⟩ := C04.slots s0.reg module.scope size gfns out hconv
+    refine ⟨pos, hpos, ?_⟩
+    intro k hk hnot
+    rw [hout v hv] at hk ⊢
+    exact ⟨hph k hk hnot, placeholder_thiscall k⟩
+
+/-- **the slot carries the convention, for every accepted case**: for every emitted struct `T` of the final registry whose
+    definition starts with a vftable block (and that has a parent path), the generated struct `<T>Vftable` is in the
+    final registry with one field per slot of `T`'s table, in slot order; the field of slot `k` is named after the
+    function in that slot and is a function pointer carrying that function's convention and return type, and the
+    printed pointer type names that convention's ABI string -/
+theorem case_slot_carries_cc (c : Case) (hps : c.ps = 4 ∨ c.ps = 8) (hb : C12.CaseBounded c) (s : State)
+    (h : c.run = .ok s) (p : Path) (i : ItemDef) (r : Resolved) (td : TypeDefn)
+    (hg : s.reg.get p = some i) (hs : i.state = .res r) (hin : r.inner = .type td) (hc : i.cat = .defined)
+    (v : Vft) (hv : td.vft = some v) :
+    ∃ (item : G.Item) (d : G.TypeDef),
+      Declared c p item ∧ item.inner = .type d ∧
+      ∀ st gfns vpath, d.stmts[0]? = some st → st.field = .vftable gfns → vftablePath p = some vpath →
+        v.ty = .cptr (.raw vpath) ∧
+        ∃ (vtd : TypeDefn), Exec.typeDefn? s.reg vpath = some vtd ∧ vtd.regions.length = v.fns.length ∧
+          ∀ (k : Nat) (f : SFunc), v.fns[k]? = some f →
+            ∃ (rg : Region) (args : List (String × DTy)),
+              vtd.regions[k]? = some rg ∧ rg.name = some f.name ∧ rg.ty = .fn f.cc args f.ret ∧
+              ∃ rest, Emit.rtyStr rg.ty = "unsafe extern \"" ++ f.cc.asStr ++ "\" fn(" ++ rest := by
+  rcases case_fns_master c hps hb s h p i r td hg hs hin hc with ⟨_, _, hnone⟩ |
+    ⟨item, d, s0, s1, module, hD, hd, hmod, he01, he, hfns, hblock⟩
+  · rw [hnone] at hv; cases hv
+  · refine ⟨item, d, hD, hd, ?_⟩
+    intro st gfns vpath hst hf hvp
+    obtain ⟨size, out, _, hconv, hout, hgen, _⟩ := hblock st gfns hst hf
+    obtain ⟨⟨v', hv', _, hty⟩, hvtd⟩ := hgen vpath hvp
+    rw [hv] at hv'
+    cases hv'
+    refine ⟨hty, _, hvtd, by simp [hout v hv], ?_⟩
+    intro k f hk
+    rw [hout v hv] at hk
+    obtain ⟨args, hargs⟩ := slot_carries_cc p f
+    refine ⟨functionToRegion p f, args, ?_, rfl, hargs, ?_⟩
+    · simp only [List.getElem?_map, hk, Option.map_some]
+    · rw [hargs]
+      exact slot_printer f.cc args f.ret
+
+/-- **inherited slots keep their convention, for every accepted case**: for every emitted struct of the final registry
+    whose table is reached through a base field `bn` (with or without a vftable block of its own), `bn` is a `#[base]`
+    field of the emitted struct, of a type that in the final registry has a table `bv`, and every slot of `bv` is repeated
+    at the same position of the type's table as the same function value – in particular with the same convention -/
+theorem case_inherited_same (c : Case) (hps : c.ps = 4 ∨ c.ps = 8) (hb : C12.CaseBounded c) (s : State)
+    (h : c.run = .ok s) (p : Path) (i : ItemDef) (r : Resolved) (td : TypeDefn)
+    (hg : s.reg.get p = some i) (hs : i.state = .res r) (hin : r.inner = .type td) (hc : i.cat = .defined)
+    (v : Vft) (hv : td.vft = some v) (bn : String) (hbn : v.baseField = some bn) :
+    ∃ rg ∈ td.regions, ∃ (bp : Path) (btd : TypeDefn) (bv : Vft),
+      rg.isBase = true ∧ rg.name = some bn ∧ rg.ty = .data (.raw bp) ∧
+      Exec.typeDefn? s.reg bp = some btd ∧ btd.vft = some bv ∧
+      ∀ k (hk : k < bv.fns.length), ∃ (hj : k < v.fns.length), v.fns[k] = bv.fns[k] ∧ v.fns[k].cc = bv.fns[k].cc := by
+  obtain ⟨_, hbase⟩ := Exec.case_accessor c hps hb s h p i r td hg hs hin hc v hv
+  obtain ⟨rg, hrg, bp, btd, bv, o, k1, k2, k3, k4, k5, hpre, _⟩ := hbase bn hbn
+  refine ⟨rg, hrg, bp, btd, bv, k1, k2, k3, k4, k5, ?_⟩
+  intro k hk
+  obtain ⟨t, ht⟩ := hpre
+  have hlen : k < v.fns.length := by rw [← ht]; simp; omega
+  refine ⟨hlen, ?_⟩
+  have : v.fns[k] = bv.fns[k] := by
+    have e : v.fns = bv.fns ++ t := ht.symm
+    simp only [e]
+    exact List.getElem_append_left hk
+  exact ⟨this, by rw [this]⟩
+
+end C16
+
+/-! ## C17 -/
+namespace C17
+open Gen CaseLift
+
+/-- a definition that was accepted has only string-literal doc attributes -/
+theorem docsAreStrings_of_docOf (attrs : List G.Attr) (doc : Option String) (h : G.docOf attrs = some doc) :
+    docsAreStrings attrs = true := by
+  cases hd : docsAreStrings attrs with
+  | true => rfl
+  | false => rw [doc_not_string_rejected attrs hd] at h; cases h
+
+/-- **type flags, for every accepted case**: the derives of every emitted struct of the final registry are the ones the
+    property prescribes for the marker attributes of its definition (copyable ↦ Copy, Clone; cloneable ↦ Clone;
+    defaultable ↦ Default), it is packed iff the definition says `#[packed]`, and the struct item emitted for it carries
+    exactly these derives; a generated vftable struct derives nothing and is not packed -/
+theorem case_type_flags (c : Case) (hps : c.ps = 4 ∨ c.ps = 8) (hb : C12.CaseBounded c) (s : State)
+    (h : c.run = .ok s) (p : Path) (i : ItemDef) (r : Resolved) (td : TypeDefn)
+    (hg : s.reg.get p = some i) (hs : i.state = .res r) (hin : r.inner = .type td) (hc : i.cat = .defined) :
+    ((∃ (reg0 : Registry) (owner : Path) (vis : Vis) (fns : List SFunc),
+        buildVftableItem reg0 owner vis fns = some i ∧ i.path = p) ∧
+      Emit.derivesOf td.copyable td.cloneable td.defaultable = [] ∧ td.packed = false) ∨
+    ∃ (item : G.Item) (d : G.TypeDef),
+      Declared c p item ∧ item.inner = .type d ∧
+      Emit.derivesOf td.copyable td.cloneable td.defaultable = specDerives d.attrs ∧
+      td.packed = hasIdent d.attrs "packed" ∧
+      ∃ docs rest tl, Emit.itemItems s.reg i =
+        Sexp.mk "struct" (docs :: Sexp.mk "derives" ((specDerives d.attrs).map .str) :: rest) :: tl := by
+  rcases case_attrs_master c hps hb s h p i r td hg hs hin hc with
+    ⟨reg0, owner, vis, fns, hv, hp, _, htd⟩ | ⟨item, d, ta, hD, hd, hi, _, hta, _, k2, k3, k4, k5, _⟩
+  · refine Or.inl ⟨⟨reg0, owner, vis, fns, hv, hp⟩, ?_, ?_⟩ <;> rw [htd] <;> rfl
+  · obtain ⟨h1, h2⟩ := type_flags d.attrs ta hta
+    refine Or.inr ⟨item, d, hD, hd, by rw [k2, k3, k4]; exact h1, by rw [k5]; exact h2, ?_⟩
+    obtain ⟨tl, htl⟩ := typeItems_head s.reg i.path r.size r.align i.vis td
+    rw [itemItems_type s.reg i r td hc hs hin, htl,
+      show Emit.derivesOf td.copyable td.cloneable td.defaultable = specDerives d.attrs from by
+        rw [k2, k3, k4]; exact h1]
+    exact ⟨_, _, tl, rfl⟩
+
+/-- **enum flags, for every accepted case**: the derives of every resolved enum of the final registry, after the five
+    fixed ones, are the ones the property prescribes for the marker attributes of its definition, and the emitted enum
+    item carries exactly these -/
+theorem case_enum_flags (c : Case) (hps : c.ps = 4 ∨ c.ps = 8) (hb : C12.CaseBounded c) (s : State)
+    (h : c.run = .ok s) (p : Path) (i : ItemDef) (r : Resolved) (ed : EnumDefn)
+    (hg : s.reg.get p = some i) (hs : i.state = .res r) (hin : r.inner = .enum ed) :
+    ∃ (item : G.Item) (d : G.EnumDef),
+      Declared c p item ∧ item.inner = .enum d ∧
+      Emit.derivesOf ed.copyable ed.cloneable ed.defaultable = specDerives d.attrs ∧
+      G.docOf d.attrs = some ed.doc ∧
+      ∃ rest tl, Emit.itemItems s.reg i =
+        Sexp.mk "enum" (Emit.docsS ed.doc ::
+          Sexp.mk "derives" ((["PartialEq", "Eq", "PartialOrd", "Ord", "Debug"] ++ specDerives d.attrs).map .str) ::
+          rest) :: tl := by
+  obtain ⟨s0, item, d, _, _, _, hD, _, hd, hbe, _, hi⟩ := case_enum_origin c hps hb s h p i r ed hg hs hin
+  obtain ⟨_, _, _, _, ea, ed', _, _, _, _, _, _, hea, hdoc, hin', _, _, _, k2, k3, k4, _⟩ := buildEnum_full s0 p d r hbe
+  rw [hin] at hin'
+  cases hin'
+  have hfl : Emit.derivesOf ed.copyable ed.cloneable ed.defaultable = specDerives d.attrs := by
+    rw [k2, k3, k4]; exact enum_flags d.attrs ea hea
+  refine ⟨item, d, hD, hd, hfl, hdoc, ?_⟩
+  rw [itemItems_enum s.reg i r ed (by rw [hi]; rfl) hs hin]
+  unfold Emit.enumItems
+  simp only [hfl]
+  exact ⟨_, _, rfl⟩
+
+/-- **docs land on the struct and its fields, for every accepted case**: the struct item emitted for every struct of the
+    final registry built from a definition written in the case carries that definition's docs – line for line, in
+    order, when no written line contains a newline –, its declared visibility and name, and one field per region with
+    the region's docs, visibility, name and type -/
+theorem case_docs_on_struct_and_fields (c : Case) (hps : c.ps = 4 ∨ c.ps = 8) (hb : C12.CaseBounded c) (s : State)
+    (h : c.run = .ok s) (p : Path) (i : ItemDef) (r : Resolved) (td : TypeDefn)
+    (hg : s.reg.get p = some i) (hs : i.state = .res r) (hin : r.inner = .type td) (hc : i.cat = .defined) :
+    (∃ (reg0 : Registry) (owner : Path) (vis : Vis) (fns : List SFunc),
+        buildVftableItem reg0 owner vis fns = some i ∧ i.path = p ∧ i.vis = vis ∧
+        td = { regions := fns.map (functionToRegion owner) }) ∨
+    ∃ (item : G.Item) (d : G.TypeDef),
+      Declared c p item ∧ item.inner = .type d ∧ G.docOf d.attrs = some td.doc ∧
+      ((∀ x ∈ docStrings d.attrs, '\n' ∉ x.toList) → Emit.docLines td.doc = docStrings d.attrs) ∧
+      ∃ derives repr tl, Emit.itemItems s.reg i =
+        Sexp.mk "struct" ([Emit.docsS td.doc, derives, repr, Emit.visS item.vis, .str (p.getLast?.getD "")] ++
+          td.regions.map fun rg =>
+            Sexp.mk "fld" [Emit.docsS rg.doc, Emit.visS rg.vis, .str (rg.name.getD ""), .str (Emit.rtyStr rg.ty)])
+        :: tl := by
+  rcases case_attrs_master c hps hb s h p i r td hg hs hin hc with hgen | ⟨item, d, ta, hD, hd, hi, hdoc, _⟩
+  · exact Or.inl hgen
+  · refine Or.inr ⟨item, d, hD, hd, hdoc, ?_, ?_⟩
+    · intro hnl
+      have := docs_line_for_line d.attrs (docsAreStrings_of_docOf d.attrs td.doc hdoc) hnl
+      rw [hdoc] at this
+      simpa using this
+    · obtain ⟨derives, repr, tl, hem⟩ := docs_on_struct_and_fields s.reg p r.size r.align item.vis td
+      refine ⟨derives, repr, tl, ?_⟩
+      rw [itemItems_type s.reg i r td hc hs hin, hi]
+      exact hem
+
+/-- **generated members are private, declared fields keep what was written, for every accepted case**: every field of
+    every emitted struct built from a definition written in the case is either generated – padding, the vftable pointer:
+    private and undocumented – or a named field statement of the definition, with that statement's visibility, name and
+    docs (line for line when no written line contains a newline) -/
+theorem case_padding_private (c : Case) (hps : c.ps = 4 ∨ c.ps = 8) (hb : C12.CaseBounded c) (s : State)
+    (h : c.run = .ok s) (p : Path) (i : ItemDef) (r : Resolved) (td : TypeDefn)
+    (hg : s.reg.get p = some i) (hs : i.state = .res r) (hin : r.inner = .type td) (hc : i.cat = .defined) :
+    (∃ (reg0 : Registry) (owner : Path) (vis : Vis) (fns : List SFunc),
+        buildVftableItem reg0 owner vis fns = some i ∧ i.path = p ∧ i.vis = vis ∧
+        td = { regions := fns.map (functionToRegion owner) }) ∨
+    ∃ (item : G.Item) (d : G.TypeDef),
+      Declared c p item ∧ item.inner = .type d ∧
+      ∀ rg ∈ td.regions, (rg.vis = .priv ∧ rg.doc = none) ∨
+        ∃ st ∈ d.stmts, ∃ (vis : Vis) (name : String) (ty : G.Ty),
+          st.field = .field vis name ty ∧ rg.vis = vis ∧ rg.name = some name ∧ G.docOf st.attrs = some rg.doc ∧
+          ((∀ x ∈ docStrings st.attrs, '\n' ∉ x.toList) → Emit.docLines rg.doc = docStrings st.attrs) := by
+  rcases case_attrs_master c hps hb s h p i r td hg hs hin hc with hgen |
+    ⟨item, d, ta, hD, hd, hi, hdoc, _, _, _, _, _, _, hregs⟩
+  · exact Or.inl hgen
+  · refine Or.inr ⟨item, d, hD, hd, ?_⟩
+    intro rg hrg
+    rcases hregs rg hrg with hp | ⟨st, hst, vis, name, ty, k1, k2, k3, k4⟩
+    · exact Or.inl hp
+    · refine Or.inr ⟨st, hst, vis, name, ty, k1, k2, k3, k4, ?_⟩
+      intro hnl
+      have := docs_line_for_line st.attrs (docsAreStrings_of_docOf st.attrs rg.doc k4) hnl
+      rw [k4] at this
+      simpa using this
+
+/-- **docs land on the wrappers, for every accepted case**: every associated function of every emitted struct of the
+    final registry carries the docs and visibility written on the function it was built from (a function of a function
+    block for this type in the case), or – a re-exposed base function – the docs and visibility of the base's function;
+    the wrapper printed for it starts with exactly these docs, this visibility and its name, and the `impl` item
+    emitted for the struct lists the wrappers of all functions whose name does not start with `_` -/
+theorem case_docs_on_wrapper (c : Case) (hps : c.ps = 4 ∨ c.ps = 8) (hb : C12.CaseBounded c) (s : State)
+    (h : c.run = .ok s) (p : Path) (i : ItemDef) (r : Resolved) (td : TypeDefn)
+    (hg : s.reg.get p = some i) (hs : i.state = .res r) (hin : r.inner = .type td) (hc : i.cat = .defined) :
+    (∀ f ∈ td.fns,
+      ((∃ gf, DeclaredFn c p gf ∧ f.name = gf.name ∧ G.docOf gf.attrs = some f.doc ∧ f.vis = gf.vis) ∨
+       (∃ rg ∈ td.regions, ∃ (b : String) (bp : Path) (btd : TypeDefn) (f0 : SFunc),
+          rg.isBase = true ∧ rg.name = some b ∧ rg.ty = .data (.raw bp) ∧ Exec.typeDefn? s.reg bp = some btd ∧
+          (f0 ∈ btd.fns ∨ ∃ v, btd.vft = some v ∧ f0 ∈ v.fns) ∧ f.doc = f0.doc ∧ f.vis = f0.vis ∧
+          f.body = .field b f0.name)) ∧
+      ∃ tl, Emit.methodS f = Sexp.mk "method" (Emit.docsS f.doc :: Emit.visS f.vis :: .str f.name :: tl)) ∧
+    ∃ acc, Sexp.mk "impl" (.str (i.path.getLast?.getD "") :: acc ::
+      ((td.fns.filter (!·.isInternal)).map Emit.methodS ++
+        (match td.vft with | some v => (v.fns.filter (!·.isInternal)).map Emit.methodS | none => [])))
+      ∈ Emit.itemItems s.reg i := by
+  refine ⟨?_, ?_⟩
+  · intro f hf
+    refine ⟨?_, docs_on_wrapper f⟩
+    rcases case_fns_master c hps hb s h p i r td hg hs hin hc with ⟨_, hnil, _⟩ |
+      ⟨item, d, s0, s1, module, hD, hd, hmod, he01, he, hfns, _⟩
+    · rw [hnil] at hf; cases hf
+    · rcases hfns f hf with ⟨gf, hgf, hbf⟩ | ⟨rg, hrg, b, bp, btd, f0, k1, k2, k3, k4, k5, _, k6, k7, _, _, _, k8⟩
+      · obtain ⟨_, _, _, hname, _⟩ := C05.built_shape s1.reg module.scope gf f hbf
+        obtain ⟨hdoc, hvis⟩ := function_doc_vis s1.reg module.scope false gf f hbf
+        exact Or.inl ⟨gf, hgf, hname, hdoc, hvis⟩
+      · exact Or.inr ⟨rg, hrg, b, bp, btd, f0, k1, k2, k3, k4, k5, k6, k7, k8⟩
+  · rw [itemItems_type s.reg i r td hc hs hin]
+    unfold Emit.typeItems
+    simp only [List.mem_append, List.mem_singleton]
+    exact ⟨_, Or.inl (Or.inl (Or.inr rfl))⟩
+
+/-- **docs land on the vftable slots, for every accepted case**: for every emitted struct `T` of the final registry
+    whose definition starts with a vftable block, every slot of its table carries the docs and visibility written on the
+    function of the block it was built from (same name), or is that slot's placeholder (private, undocumented); and the
+    field of that slot in the generated struct `<T>Vftable` of the final registry has the slot function's docs,
+    visibility and name -/
+theorem case_docs_on_slot (c : Case) (hps : c.ps = 4 ∨ c.ps = 8) (hb : C12.CaseBounded c) (s : State)
+    (h : c.run = .ok s) (p : Path) (i : ItemDef) (r : Resolved) (td : TypeDefn)
+    (hg : s.reg.get p = some i) (hs : i.state = .res r) (hin : r.inner = .type td) (hc : i.cat = .defined)
+    (v : Vft) (hv : td.vft = some v) :
+    ∃ (item : G.Item) (d : G.TypeDef),
+      Declared c p item ∧ item.inner = .type d ∧
+      ∀ st gfns, d.stmts[0]? = some st → st.field = .vftable gfns →
+        (∀ (k : Nat) (f : SFunc), v.fns[k]? = some f →
+          (∃ gf ∈ gfns, f.name = gf.name ∧ G.docOf gf.attrs = some f.doc ∧ f.vis = gf.vis) ∨
+          (f = placeholderFn k ∧ f.vis = .priv ∧ f.doc = none)) ∧
+        ∀ vpath, vftablePath p = some vpath →
+          ∃ (vtd : TypeDefn), Exec.typeDefn? s.reg vpath = some vtd ∧
+            ∀ (k : Nat) (f : SFunc), v.fns[k]? = some f →
+              ∃ (rg : Region), vtd.regions[k]? = some rg ∧ rg.doc = f.doc ∧ rg.vis = f.vis ∧ rg.name = some f.name := by
+  rcases case_fns_master c hps hb s h p i r td hg hs hin hc with ⟨_, _, hnone⟩ |
+    ⟨item, d, s0, s1, module, hD, hd, hmod, he01, he, hfns, hblock⟩
+  · rw [hnone] at hv; cases hv
+  · refine ⟨item, d, hD, hd, ?_⟩
+    intro st gfns hst hf
+    obtain ⟨size, out, _, hconv, hout, hgen, hslots⟩ := hblock st gfns hst hf
+    refine ⟨?_, ?_⟩
+    · intro k f hk
+      rw [hout v hv] at hk
+      rcases hslots k f hk with ⟨gf, hgf, hbf⟩ | hph
+      · obtain ⟨hdoc, hvis⟩ := function_doc_vis s0.reg module.scope true gf f hbf
+        exact Or.inl ⟨gf, hgf, (C04.vfunc_body s0.reg module.scope gf f hbf).2, hdoc, hvis⟩
+      · exact Or.inr ⟨hph, by rw [hph]; exact (placeholder_private k).1, by rw [hph]; exact (placeholder_private k).2⟩
+    · intro vpath hvp
+      obtain ⟨_, hvtd⟩ := hgen vpath hvp
+      refine ⟨_, hvtd, ?_⟩
+      intro k f hk
+      rw [hout v hv] at hk
+      obtain ⟨k1, k2, k3⟩ := docs_on_slot p f
+      refine ⟨functionToRegion p f, ?_, k1, k2, k3⟩
+      simp only [List.getElem?_map, hk, Option.map_some]
+
+/-- **packed types have no alignment attribute, for every accepted case**: the struct item emitted for every struct of
+    the final registry is `repr(C, packed)` exactly when its definition says `#[packed]` (never for a generated vftable
+    struct), and `repr(C, align(<resolved alignment>))` otherwise -/
+theorem case_packed_no_align (c : Case) (hps : c.ps = 4 ∨ c.ps = 8) (hb : C12.CaseBounded c) (s : State)
+    (h : c.run = .ok s) (p : Path) (i : ItemDef) (r : Resolved) (td : TypeDefn)
+    (hg : s.reg.get p = some i) (hs : i.state = .res r) (hin : r.inner = .type td) (hc : i.cat = .defined) :
+    ((∃ (reg0 : Registry) (owner : Path) (vis : Vis) (fns : List SFunc),
+        buildVftableItem reg0 owner vis fns = some i ∧ i.path = p) ∧
+      ∃ docs derives rest tl, Emit.itemItems s.reg i =
+        Sexp.mk "struct" (docs :: derives ::
+          Sexp.mk "repr" [.str "C", .str ("align(" ++ toString r.align ++ ")")] :: rest) :: tl) ∨
+    ∃ (item : G.Item) (d : G.TypeDef),
+      Declared c p item ∧ item.inner = .type d ∧
+      ∃ docs derives rest tl, Emit.itemItems s.reg i =
+        Sexp.mk "struct" (docs :: derives ::
+          Sexp.mk "repr" (if hasIdent d.attrs "packed" then [.str "C", .str "packed"]
+            else [.str "C", .str ("align(" ++ toString r.align ++ ")")]) :: rest) :: tl := by
+  obtain ⟨docs, derives, rest, tl, hem⟩ := packed_no_align s.reg i.path r.size r.align i.vis td
+  rw [← itemItems_type s.reg i r td hc hs hin] at hem
+  rcases case_type_flags c hps hb s h p i r td hg hs hin hc with ⟨hgen, _, hpk⟩ | ⟨item, d, hD, hd, _, hpk, _⟩
+  · refine Or.inl ⟨hgen, docs, derives, rest, tl, ?_⟩
+    rw [hem, hpk]
+    rfl
+  · refine Or.inr ⟨item, d, hD, hd, docs, derives, rest, tl, ?_⟩
+    rw [hem, hpk]
+
+end C17
+
+/-! ## non-vacuity: the lifted theorems on concrete accepted cases
+
+`C02.Example.case` (`Props/C02Global.lean`: an extern type, the enum `Kind: u16 { X = 0, Y }`, structs, a vftable) and
+`Exec.Example.case` (`Props/Exec.lean`: `B` with a three-slot vftable, `D` with `#[base] b: B`) are accepted
+(`run_ok`) and bounded (`case_bounded`).  Each example obtains the final state from acceptance alone and gets its
+conclusion *from the lifted theorem*; evaluation (`decide +kernel`) is only used to look entries up in the final
+registry and to identify the declared definition among the case's modules. -/
+namespace CaseLift.Example
+open Gen
+
+/-- **`C08.case_values`** on `C02.Example.case`: the enum `m::Kind` of the final registry is resolved, and – by the
+    theorem – has exactly the discriminants its definition in the case says: `X = 0`, `Y = 1` -/
+example : ∃ (s : State) (i : ItemDef) (r : Resolved) (ed : EnumDefn),
+    C02.Example.case.run = .ok s ∧ s.reg.get ["m", "Kind"] = some i ∧ i.state = .res r ∧ r.inner = .enum ed ∧
+    ed.fields = [("X", 0), ("Y", 1)] := by
+  obtain ⟨s, hs⟩ := (C09.isOkB_iff _).mp C02.Example.run_ok
+  have hreg := C02.Example.run_reg s hs
+  -- the entry, looked up in the computed registry
+  have hex : ∃ i r ed, C02.Example.s1.reg.get ["m", "Kind"] = some i ∧ i.state = .res r ∧ r.inner = .enum ed := by
+    refine ⟨(C02.Example.s1.reg.get ["m", "Kind"]).getD default,
+      ((C02.Example.s1.reg.get ["m", "Kind"]).getD default).resolved?.getD default,
+      match (((C02.Example.s1.reg.get ["m", "Kind"]).getD default).resolved?.getD default).inner with
+      | .enum ed => ed
+      | .type _ => default, ?_, ?_, ?_⟩ <;> decide +kernel
+  obtain ⟨i, r, ed, hg, hst, hin⟩ := hex
+  rw [← hreg] at hg
+  refine ⟨s, i, r, ed, hs, hg, hst, hin, ?_⟩
+  -- the discriminants, by the lifted theorem
+  obtain ⟨item, d, hD, hd, _, hv, _⟩ := C08.case_values C02.Example.case (Or.inr rfl) C02.Example.case_bounded s hs
+    ["m", "Kind"] i r ed hg hst hin
+  obtain ⟨path, file, m, hm, hmem, hp⟩ := hD
+  simp only [C02.Example.case, List.mem_cons, List.not_mem_nil, or_false, ModEnt.ast.injEq] at hm
+  obtain ⟨rfl, rfl, rfl⟩ := hm
+  have hname : item.name = "Kind" := by
+    simp only [List.cons_append, List.nil_append, List.cons.injEq, and_true, true_and] at hp
+    exact hp.symm
+  simp only [C02.Example.modM, List.mem_cons, List.not_mem_nil, or_false] at hmem
+  rcases hmem with rfl | rfl | rfl | rfl
+  · exact absurd hname (by decide)
+  · exact absurd hname (by decide)
+  · exact absurd hname (by decide)
+  · simp only [G.Inner.enum.injEq] at hd
+    subst hd
+    rw [hv]
+    decide
+
+/-- **`C16.case_inherited_same`** on `Exec.Example.case`: `m::D` of the final registry has a table reached through its
+    base field `b`; by the theorem, `b` is a `#[base]` field of the emitted struct whose type – `m::B`, the only base –
+    has in the final registry a table every slot of which `D`'s table repeats, with the same convention -/
+example : ∃ (s : State) (v bv : Vft), Exec.Example.case.run = .ok s ∧
+    Exec.Example.tdD.vft = some v ∧ (Exec.typeDefn? s.reg ["m", "B"]).bind (·.vft) = some bv ∧ bv.fns.length = 3 ∧
+    ∀ k (hk : k < bv.fns.length), ∃ (hj : k < v.fns.length), v.fns[k] = bv.fns[k] ∧ v.fns[k].cc = bv.fns[k].cc := by
+  obtain ⟨s, hs⟩ := (C09.isOkB_iff _).mp Exec.Example.run_ok
+  have hreg := Exec.Example.run_reg s hs
+  have hget : s.reg.get ["m", "D"] = some Exec.Example.itemD := by rw [hreg]; decide +kernel
+  have hst : Exec.Example.itemD.state = .res Exec.Example.resD := by decide +kernel
+  have hin : Exec.Example.resD.inner = .type Exec.Example.tdD := by decide +kernel
+  have hv : Exec.Example.tdD.vft = some ((Exec.Example.tdD.vft).getD default) := by decide +kernel
+  obtain ⟨rg, hrg, bp, btd, bv, hbase, hname, hrty, hbtd, hbv, hall⟩ :=
+    C16.case_inherited_same Exec.Example.case (Or.inr rfl) Exec.Example.case_bounded s hs ["m", "D"] Exec.Example.itemD
+      Exec.Example.resD Exec.Example.tdD hget hst hin (by decide +kernel) _ hv "b" (by decide +kernel)
+  -- the only `#[base]` region of `D` is `b : m::B`
+  have hb : ∀ x ∈ Exec.Example.tdD.regions, x.isBase = true → x.ty = .data (.raw ["m", "B"]) := by decide +kernel
+  rw [hb rg hrg hbase] at hrty
+  cases hrty
+  refine ⟨s, _, bv, hs, hv, by rw [hbtd]; exact hbv, ?_, hall⟩
+  rw [hreg, Exec.Example.hB] at hbtd
+  cases hbtd
+  have : ∀ w, Exec.Example.tdB.vft = some w → w.fns.length = 3 := by decide +kernel
+  exact this bv hbv
+
+end CaseLift.Example
 
 end PyxisVerif
